@@ -183,6 +183,55 @@ def win_quote_table(ctx):
     ctx.ob(R, 'wrap_quotes|double-quotes', ok, wq.node, '')
 
 
+def win_tokenize_parity(ctx):
+    R = 'WIN-TOKENIZE-PARITY'
+    ctx.rule(R, 'the Windows splitter implements the MS C runtime backslash '
+             'rule structurally: a run of n backslashes before a double '
+             'quote yields n//2 backslashes and, by parity, a literal quote '
+             'or a quote toggle; a run not followed by a quote is literal; '
+             'the run counter is reset after either')
+    repo = ctx.repo
+    f = repo.func(WIN + '_tokenize')
+    t = unparse(f.node)
+    loops = [n for n in f.node.body if isinstance(n, ast.For)]
+    ok = len(loops) == 1
+    ctx.ob(R, '_tokenize|single-pass', ok, f.node, '')
+    if not ok:
+        return
+    branches = {}
+    cur = loops[0].body[0] if loops[0].body and isinstance(
+        loops[0].body[0], ast.If) else None
+    while cur is not None:
+        branches[unparse(cur.test)] = cur.body
+        if len(cur.orelse) == 1 and isinstance(cur.orelse[0], ast.If):
+            cur = cur.orelse[0]
+        else:
+            branches['<else>'] = cur.orelse
+            cur = None
+    bs = branches.get("c == '\\\\'")
+    ok = bs is not None and len(bs) == 1 and isinstance(
+        bs[0], ast.AugAssign) and isinstance(bs[0].op, ast.Add) and \
+        unparse(bs[0].value) == '1'
+    ctx.ob(R, '_tokenize|backslash-counts', ok, f.node,
+           'backslashes are not counted as a run')
+    var = unparse(bs[0].target) if ok else 'escapes'
+    q = branches.get("c == '\"'")
+    qt = ' '.join(unparse(s_) for s_ in q) if q else ''
+    ok = q is not None and 'range({} // 2)'.format(var) in qt and \
+        '{} % 2'.format(var) in qt and '_Token.quote' in qt and \
+        "(_Token.char, '\"')" in qt and '{} = 0'.format(var) in qt
+    ctx.ob(R, '_tokenize|quote-branch-halves-and-parity', ok, f.node,
+           'before a quote the run is not halved / the parity does not '
+           'decide between a literal quote and a quote toggle')
+    e = branches.get('<else>')
+    et = ' '.join(unparse(s_) for s_ in e) if e else ''
+    ok = e is not None and 'range({})'.format(var) in et and \
+        '{} = 0'.format(var) in et and '_Token.space' in et
+    ctx.ob(R, '_tokenize|other-branch-keeps-run', ok, f.node,
+           'a backslash run that is not followed by a quote is not kept '
+           'literally')
+
+
 def check(ctx):
     ctx.not_decided += [
         'that quoting followed by MS C runtime parsing is the identity for '
@@ -192,3 +241,4 @@ def check(ctx):
     uuid_persist(ctx)
     sln_deps(ctx)
     win_quote_table(ctx)
+    win_tokenize_parity(ctx)
